@@ -23,7 +23,12 @@ RULE = ("scenarios: job document / project document writes (old document absent,
         "ON and OFF.  Per write episode (open .. rename/close) one case: the interposer's mutation trace "
         "(self-checked by replay), every crash prefix x torn offset {1, mid, len-1} materialised and the target "
         "read back with the real json / gzip+json loaders, a reader (real descriptors) opened at every position and "
-        "read at every later position, a forked signac reader at every position.  non-trivial: the old file "
+        "read at every later position, a forked signac reader at every position.  Write episodes are formed per open "
+        "file (inode attribution: writes after a rename belong to the renamed file; the episode ends at the last "
+        "entry of the descriptor); any entry on a document/cache/temp name outside the episodes, any entry the model "
+        "translation does not consume, a failed replay self-check, a scenario without a write and a fault-case count "
+        "different from the try body's length are emitted as mismatching cases; input_distribution['scenarios-"
+        "attempted'] counts scenarios (quick 50, thorough 104), every scenario yields >= 1 case or a harness error.  non-trivial: the old file "
         "exists or the write has >= 1 chunk of >= 2 bytes; distinct by (scenario, episode)")
 TRUSTED = [
     "os.replace is atomic w.r.t. concurrent open; a crash preserves the order of completed calls; an open file keeps its inode",
@@ -238,26 +243,32 @@ def is_tmp_of(base, target_base):
 
 
 def episodes(muts):
-    """Write episodes: (first op index, last op index, target relpath) for every create-open."""
+    """Write episodes, by open file (inode attribution): for every create-open at index a the episode is
+    (a, b, target, fid) where b is the LAST entry that concerns the opened file — its writes/truncates/close
+    (wherever the inode is named by then) and the renames of the name it currently has — and target is the
+    name the inode ends up with (the rename destination of the temp-file protocol, else the opened name)."""
     out = []
     for a, op in enumerate(muts):
         if op.op != "open" or not op.flags.get("creat"):
             continue
-        d, b = os.path.split(op.path)
-        target, end = op.path, None
+        cur, end = op.path, a
         for k in range(a + 1, len(muts)):
             o = muts[k]
-            if o.op == "rename" and o.path == op.path:
-                target, end = o.path2, k
-                break
-            if o.op == "close" and o.fid == op.fid and end is None:
+            if o.fid == op.fid:
                 end = k
-                # keep looking for a rename of this file (atomic protocol); stop at the next create-open
-            if o.op == "open" and o.flags.get("creat") and k > a:
-                break
-        if end is None:
-            end = len(muts) - 1
-        out.append((a, end, target))
+                if o.op == "close":
+                    # a rename of the closed file still belongs to the protocol; look on until the name is reused
+                    for k2 in range(k + 1, len(muts)):
+                        o2 = muts[k2]
+                        if o2.op == "rename" and o2.path == cur:
+                            cur, end = o2.path2, k2
+                            break
+                        if o2.op in ("open", "unlink") and o2.path == cur:
+                            break
+                    break
+            elif o.op == "rename" and o.path == cur:
+                cur, end = o.path2, k
+        out.append((a, end, cur, op.fid))
     return out
 
 
@@ -284,28 +295,41 @@ def abstract_chunk(i, n):
     return [] if n == 0 else ([10 + i] if n == 1 else [10 + i, 10 + i])
 
 
-def to_wsteps(ops, m):
-    """Translate recorded ops (of one episode) to Atomic.wstep literals, names through m; returns (steps, chunks)."""
-    steps, chunks = [], []
+def to_wsteps(ops, m, fid=None):
+    """Translate the recorded ops of one episode to Atomic.wstep literals, names through m; returns
+    (steps, chunks, unconsumed).  Writes/closes are attributed to the open file: the model's WAppend goes
+    through the writer's descriptor, so a write after the rename lands in the renamed inode there as well.
+    `unconsumed` lists entries that have no counterpart in the model (broken correspondence)."""
+    steps, chunks, unconsumed = [], [], []
     for o in ops:
+        mine = (o.fid == fid) if (fid is not None and o.fid is not None) else (o.path in m)
         if o.op == "open":
             if o.path in m and (o.flags.get("trunc") or not o.flags.get("existed", True)):
                 steps.append("(WOpen %s)" % coq_N(m[o.path]))
+            elif o.path in m:
+                unconsumed.append(o.brief())
         elif o.op == "write":
-            if o.path in m:
+            if mine:
                 c = abstract_chunk(len(chunks), len(o.data))
                 chunks.append(c)
                 steps.append("(WAppend %s)" % coq_bytes(c))
+            elif o.cur in m or o.path in m:
+                unconsumed.append(o.brief())
         elif o.op == "close":
-            if o.path in m:
+            if mine:
                 steps.append("WClose")
         elif o.op == "rename":
             if o.path in m and o.path2 in m:
                 steps.append("(WRename %s %s)" % (coq_N(m[o.path]), coq_N(m[o.path2])))
+            elif o.path in m or o.path2 in m:
+                unconsumed.append(o.brief())
         elif o.op == "unlink":
             if o.path in m:
                 steps.append("(WUnlink %s)" % coq_N(m[o.path]))
-    return steps, chunks
+        elif o.op == "truncate":
+            if mine or o.path in m:
+                unconsumed.append(o.brief())
+    return steps, chunks, unconsumed
 
 
 def dir_entries(root, d):
@@ -332,7 +356,22 @@ def run_scenario(desc, work):
         act(tracing)
         broken = ip.check_complete(work)
         muts = ip.mutations()
-        eps = [(a, b, t) for a, b, t in episodes(muts) if os.path.basename(t) in DOC_NAMES]
+        eps_all = episodes(muts)
+        eps = [(a, b, t) for a, b, t, _ in eps_all if os.path.basename(t) in DOC_NAMES]
+        ep_fid = {(a, b, t): fid for a, b, t, fid in eps_all}
+        # no entry that touches a document / cache file (or one of its temp names) may fall outside the episodes
+        covered = set()
+        for a, b, _ in eps:
+            covered.update(range(a, b + 1))
+
+        def doc_related(p):
+            if p is None:
+                return False
+            base = os.path.basename(p)
+            return base in DOC_NAMES or any(is_tmp_of(base, n) for n in DOC_NAMES)
+        for n, o in enumerate(muts):
+            if n not in covered and (doc_related(o.path) or doc_related(o.path2) or doc_related(o.cur)):
+                broken = broken + ["entry outside every write episode: " + o.brief()]
         # ---- second, identical run with readers: descriptors opened at every position, read at every later one
         readers = {}   # target -> {(i, j): bytes|None}, positions = number of completed mutations
         signac_reads = []  # (position, outcome of a forked process reading through signac)
@@ -418,7 +457,7 @@ def run_scenario(desc, work):
                 for p_, txt in signac_reads:
                     if a <= p_ <= b + 1:
                         rd.append("OOld" if txt == first else ("ONew" if txt == last else ("OEmpty" if txt == "EXC:empty" else "OTorn")))
-            steps, chunks = to_wsteps(ops, m)
+            steps, chunks, unconsumed = to_wsteps(ops, m, ep_fid[(a, b, t)])
             old_names = []
             if old_b is not None:
                 old_names.append((0, [1] if old_b else []))
@@ -426,13 +465,16 @@ def run_scenario(desc, work):
                 if is_tmp_of(e, base):
                     old_names.append((1, [2]))
             cases.append(emit(desc, site, thr, old_names, chunks, None, steps, crash, rd, final,
-                              {"episode": [a, b, norm_tmp(t)], "trace": [o.brief() for o in ops], "broken": broken,
+                              {"episode": [a, b, norm_tmp(t)], "trace": [o.brief() for o in ops],
+                               "broken": broken + ["not consumed by the model translation: " + u for u in unconsumed],
                                "old_len": None if old_b is None else len(old_b), "new_len": len(new_b or b"")},
                               nontrivial=(old_b is not None or any(len(c) == 2 for c in chunks))))
         # ---- fault injection into the cache stream (clean-up branch)
         if desc["kind"] == "cache" and desc.get("faults", True):
             for (a, b, t) in eps:
-                for k in range(a, b):          # every call of the try body: open, writes, close
+                body = [k for k in range(a, b + 1) if muts[k].op != "rename"]   # every call on the open file
+                nfault0 = len(cases)
+                for pos, k in enumerate(body):
                     rootf = os.path.join(work, "f%d" % k, "p")
                     os.makedirs(rootf)
                     _, actf = build(desc, rootf)
@@ -454,26 +496,39 @@ def run_scenario(desc, work):
                     mf = ipf.mutations()
                     opsf = [o for o in mf if o.index >= muts[a].index]
                     m = name_map(t, [o.path for o in opsf] + [o.path2 for o in opsf])
-                    steps, chunks_f = to_wsteps(opsf, m)
+                    steps, chunks_f, unconsumed_f = to_wsteps(opsf, m)
                     after = read_file(tf)
                     cls = "OOld" if after == old_b else classify(base, after, old_b, b"\0")
                     ex = sorted({1 if is_tmp_of(e, base) else 3 for e in dir_entries(rootf, d) - before_entries if e != base})
-                    _, chunks = to_wsteps(muts[a:b + 1], name_map(t, [o.path for o in muts[a:b + 1]]))
+                    _, chunks, _ = to_wsteps(muts[a:b + 1], name_map(t, [o.path for o in muts[a:b + 1]]), ep_fid[(a, b, t)])
                     old_names = [(0, [1] if old_b else [])] if old_b is not None else []
                     for e in before_entries:
                         if is_tmp_of(e, base):
                             old_names.append((1, [2]))
-                    cases.append(emit(dict(desc, fault=k - a), site, thr, old_names, chunks, k - a, steps, [], [], (cls, ex),
-                                      {"fault_at": k - a, "raised": type(exc).__name__ if exc else None,
-                                       "trace": [o.brief() for o in opsf], "broken": [] if exc is not None else ["no exception raised"]},
+                    cases.append(emit(dict(desc, fault=pos), site, thr, old_names, chunks, pos, steps, [], [], (cls, ex),
+                                      {"fault_at": pos, "raised": type(exc).__name__ if exc else None,
+                                       "trace": [o.brief() for o in opsf],
+                                       "broken": ([] if exc is not None else ["no exception raised"])
+                                       + ["not consumed by the model translation: " + u for u in unconsumed_f]},
                                       nontrivial=True))
                     shutil.rmtree(os.path.dirname(rootf), ignore_errors=True)
+                # one fault case per call of the model's try body [open; append...; close]
+                _, ch, _ = to_wsteps(muts[a:b + 1], name_map(t, [o.path for o in muts[a:b + 1]]), ep_fid[(a, b, t)])
+                if len(cases) - nfault0 != len(ch) + 2:
+                    cases.append(emit(desc, site, thr, [], [], None, [], [], [], ("ONew", []),
+                                      {"episode": [a, b, norm_tmp(t)], "trace": [o.brief() for o in muts[a:b + 1]],
+                                       "broken": ["%d fault cases for a try body of %d calls" % (len(cases) - nfault0, len(ch) + 2)]},
+                                      nontrivial=False, force_mismatch=True))
         if not eps:
             cases.append(emit(desc, site, thr, [], [], None, [], [], [], ("ONew", []),
                               {"episode": None, "trace": [o.brief() for o in muts], "broken": broken + ["no document/cache write observed"]},
                               nontrivial=False, force_mismatch=True))
     finally:
         _set_threads(True)
+    # accounting: every scenario yields at least one case; the first one carries the scenario marker and the count
+    assert cases, "scenario produced no case"
+    cases[0].kinds = cases[0].kinds + ("scenarios-attempted",)
+    cases[0].obs["cases_of_this_scenario"] = len(cases)
     return cases
 
 
